@@ -510,6 +510,8 @@ func Run(tier string, seed int64, outDir string) *common.Meta {
 		meta.Distribution["renamed_import_packages_with_type_errors"] = nErr
 		meta.Distribution["selection_s"] = time.Since(t3).Seconds()
 	}
+	// heap model of typeUnparen executed on the converted real type expressions of copy 0
+	unparenStream(meta, outDir, cs[0], infos)
 	sort.Strings(meta.Notes)
 	meta.Distinct = withWarn / 2
 	meta.Distribution["check_calls_fingerprinted"] = p0.evals
